@@ -71,6 +71,9 @@ func unhx(s string) []byte {
 	if s == "-" {
 		return nil
 	}
+	if s == "=" {
+		return []byte{} // present but empty: the same key (or value) as nil
+	}
 	b, err := hex.DecodeString(s)
 	if err != nil {
 		panic("bad hex " + s)
@@ -268,7 +271,18 @@ func runHist(path string) {
 			fmt.Fprintln(out, line)
 			continue
 		}
-		fmt.Fprintln(out, line)
+		// a symbolic size target "S<k>d<d>": the Stat size minus Size(m) of the first k live messages, plus d
+		if (f[0] == "finds" || f[0] == "trims") && len(f) > 1 && strings.HasPrefix(f[1], "S") && st.log != nil && !st.dead {
+			if t, ok := sizeTarget(st.log, f[1]); ok {
+				f[1] = strconv.FormatInt(t, 10)
+				fmt.Fprintln(out, f[0], f[1])
+				fmt.Fprintln(out, "= target", f[1])
+			} else {
+				fmt.Fprintln(out, line)
+			}
+		} else {
+			fmt.Fprintln(out, line)
+		}
 		res := guardedStep(st, f)
 		for _, r := range res {
 			fmt.Fprintln(out, "=", r)
@@ -278,6 +292,36 @@ func runHist(path string) {
 		}
 	}
 	finish()
+}
+
+func sizeTarget(l klevdb.Log, tok string) (int64, bool) {
+	body := tok[1:]
+	i := strings.Index(body, "d")
+	if i < 0 {
+		return 0, false
+	}
+	k, d := atoi(body[:i]), atoi(body[i+1:])
+	st, err := l.Stat()
+	if err != nil {
+		return 0, false
+	}
+	target := st.Size
+	off, n := klevdb.OffsetOldest, int64(0)
+	for n < k {
+		next, msgs, err := l.Consume(off, 32)
+		if err != nil || len(msgs) == 0 {
+			break
+		}
+		for _, m := range msgs {
+			if n >= k {
+				break
+			}
+			target -= l.Size(m)
+			n++
+		}
+		off = next
+	}
+	return target + d, true
 }
 
 // guardedStep runs one op with a watchdog: a call that never returns (e.g. a lock left held by
@@ -448,7 +492,8 @@ func step(st *hstate, f []string) []string {
 		if err != nil {
 			return e(err)
 		}
-		return []string{fmt.Sprintf("ok %d %s%s%s", sz, versOf(sv, ms), rewrittenVer(sv, segVers(st.dir), ms), fmtMsgs(ms))}
+		sv2 := segVers(st.dir)
+		return []string{fmt.Sprintf("ok %d %s%s%s%s", sz, versOf(sv, ms), rewrittenVer(sv, sv2, ms), newHeadVer(sv, sv2), fmtMsgs(ms))}
 	case "delm":
 		sv := segVers(st.dir)
 		ms, sz, err := klevdb.DeleteMulti(ctx, l, parseOffsets(f[1]), noBackoff)
@@ -727,6 +772,23 @@ func rewrittenVer(before, after []segVer, ms []klevdb.Message) string {
 		}
 	}
 	return ">-"
+}
+
+// newHeadVer: "^v" - the format of an empty head segment the Delete created ("" when it created none)
+func newHeadVer(before, after []segVer) string {
+	if len(after) == 0 {
+		return ""
+	}
+	hd := after[len(after)-1]
+	if !hd.empty {
+		return ""
+	}
+	for _, s := range before {
+		if s.base == hd.base {
+			return ""
+		}
+	}
+	return "^" + string(hd.v)
 }
 
 func doCons(l klevdb.Log, off, max int64) string {
